@@ -550,7 +550,7 @@ def gen_read_block(out, errors, hdrcls, fn):
                 env.vars[nm] = (nm, t[1])
                 continue
             if isinstance(s, ast.Return):
-                if src != "return FilterbankBlock(data_block, new_header)":
+                if src not in ("return FilterbankBlock(data_block, new_header)", "return FilterbankBlock(data_block, new_header, dm=self.header.dm)"):
                     raise Unsupported("return changed: " + src)
                 continue
             raise Unsupported("statement " + src[:70])
